@@ -14,7 +14,8 @@ MANIFEST = {
             'x every output choice (each formula cell alone, all together) is compiled; each compiled function is called with the full product of a 9-value pool per '
             'argument (numbers, text, numeric text, logical, error, arrays for ranges) in forward and reverse order, and every returned value is compared with '
             'calculate() on a fresh model and with the reference evaluator. Single formulas: every tree with <= 2 operators over 1-3 reference leaves is compiled and '
-            'called with the pool product in the order of its inputs mapping and compared with the same formula evaluated with the arguments as cell values. Every function is compiled twice from the same model object and the second one is judged.',
+            'called with the pool product in the order of its inputs mapping and compared with the same formula evaluated with the arguments as cell values. Every function is compiled twice from the same model object and the second one is judged. '
+            'Workbooks with circular references (3 mutually referring cells, each of the 6 edges absent / direct / inside an IF branch; circular handling enabled) are compiled for every single input x output choice and compared with calculate() on a fresh model.',
     'note': 'Trusted: ref/wbeval.py, ref/scalar.py; the fresh-model calculation is an independent second reference. Blank arguments are supplied as cell inputs only.',
 }
 RULE = 'case = (workbook, inputs, outputs); inside a case every argument tuple is called twice; non-trivial = compiled and called; distinct = case key'
@@ -283,9 +284,104 @@ def run_folded(case):
     return result(ex, sorted(oc), fails)
 
 
+# ---- workbooks with circular references (circular handling enabled): compiled function vs calculate() on a fresh model
+CIRC_P = "'[b.xlsx]S'!"
+CIRC_EDGES = [(a, b) for a in 'ABC' for b in 'ABC' if a != b]
+
+
+def circ_dict(forms):
+    """A1, B1, C1 refer to each other (edge form per ordered pair: 0 absent, 1 direct, 2 inside an IF branch chosen by D1);
+    D1 is a constant every cell adds; E1 depends on A1 and D1; F1 on D1 only."""
+    P = CIRC_P
+    d = {P + 'D1': 1}
+    for a in 'ABC':
+        terms = ['%sD1' % P]
+        for (x, y), f in zip(CIRC_EDGES, forms):
+            if x == a and f == 1:
+                terms.append('%s%s1' % (P, y))
+            elif x == a and f == 2:
+                terms.append('IF(%sD1>5,%s%s1,1)' % (P, P, y))
+        d[P + a + '1'] = '=' + '+'.join(terms)
+    d[P + 'E1'] = '=%sA1+%sD1' % (P, P)
+    d[P + 'F1'] = '=%sD1*2' % P
+    return d
+
+
+def _reaches(adj, s, t):
+    seen, stack = set(), list(adj[s])
+    while stack:
+        v = stack.pop()
+        if v == t:
+            return True
+        if v not in seen:
+            seen.add(v)
+            stack.extend(adj[v])
+    return False
+
+
+def circ_cases(tier):
+    for forms in itertools.product((0, 1, 2), repeat=len(CIRC_EDGES)):
+        if tier == 'quick' and sum(f == 2 for f in forms) > 1:
+            continue
+        # at least one cycle among the three cells when every edge is taken
+        adj = {a: {y for (x, y), f in zip(CIRC_EDGES, forms) if x == a and f} for a in 'ABC'}
+        if not any(_reaches(adj, a, a) for a in 'ABC'):
+            continue
+        yield ['circ', list(forms)]
+
+
+CIRC_POOL = [('n', 10.0), ('n', 0.0), ('t', 'abc'), ('e', '#DIV/0!'), ('b', True)]
+
+
+def run_circ(case):
+    _, forms = case
+    import formulas, numpy as np
+    from xl.evalcell import classify, to_scalar, exc_name
+    P = CIRC_P
+    fails, oc, ex = [], set(), 0
+    d = circ_dict(forms)
+    cells = ['A1', 'B1', 'C1', 'D1']
+    outs_all = ['A1', 'B1', 'C1', 'E1', 'F1']
+    try:
+        model = formulas.ExcelModel().from_dict(d).finish(circular=True)
+        fresh = formulas.ExcelModel().from_dict(d).finish(circular=True)
+    except Exception as e:
+        return result(1, ['build-escape'], [Fail('compile-escape', got=exc_name(e), exp='a model', forms=str(forms), circular=True)])
+    val = lambda r: classify(np.asarray(getattr(r, 'value', r), object).ravel()[0])
+    for inp in cells:
+        for outs in [[o] for o in outs_all if o != inp] + [[o for o in outs_all if o != inp]]:
+            desc = dict(forms=str(forms), inputs=inp, outputs=','.join(outs), circular=True)
+            try:
+                func = model.compile([P + inp], [P + o for o in outs])
+            except Exception as e:
+                fails.append(Fail('compile-escape', got='%s:%s' % (exc_name(e), str(e)[:80]), exp='a function', **desc))
+                continue
+            for a in CIRC_POOL + CIRC_POOL[::-1]:
+                ex += 1
+                try:
+                    res = func(to_scalar(a))
+                    res = res if isinstance(res, (list, tuple)) and len(outs) > 1 else [res]
+                    got = [val(r) for r in res]
+                except Exception as e:
+                    fails.append(Fail('call-escape', got='%s:%s' % (exc_name(e), str(e)[:80]), exp='values', args=str(a), **desc))
+                    continue
+                sol = fresh.calculate({P + inp: to_scalar(a)})
+                exp = [val(sol[P + o]) if P + o in sol else None for o in outs]
+                for o, g, e in zip(outs, got, exp):
+                    oc.add('circ:' + (g[1] if g[0] == 'e' else g[0]))
+                    if e is not None and not (g == e or close(g, e, 1e-12)):
+                        fails.append(Fail('differs-from-calculate', got='%s=%s' % (o, g), exp='%s=%s' % (o, e), args=str(a), **desc))
+                        break
+            if len(fails) > 6:
+                return result(ex, sorted(oc), fails[:6])
+    return result(ex, sorted(oc), fails[:6])
+
+
 def run_case(case):
     if case[0] == 'folded':
         return run_folded(case)
+    if case[0] == 'circ':
+        return run_circ(case)
     return run_wb(case) if case[0] == 'wb' else run_formula(case)
 
 
@@ -293,4 +389,5 @@ def run(ctx):
     ctx.explore(run_case, cases(ctx.tier), chunksize=2, label='workbook_functions')
     ctx.explore(run_case, formula_cases(ctx.tier), chunksize=4, label='single_formulas')
     ctx.explore(run_case, folded_cases(ctx.tier), chunksize=1, label='compile_time_folded_references')
+    ctx.explore(run_case, circ_cases(ctx.tier), chunksize=2, label='circular_workbooks')
     return {}
